@@ -45,6 +45,10 @@ class PoolCheck:
         self.level = level
         self.assumptions = ASSUME_POOL
         self.mods = None
+        if sweeps is None:
+            from . import sweeps as _sw
+
+            sweeps = cid if cid in _sw.SPECS else None
         self.sweeps = sweeps
 
     def prepare(self):
@@ -85,7 +89,7 @@ class PoolCheck:
             "inconclusive": r["inconclusive"],
             "nontrivial": bool(self.nontrivial(sit)),
             "sig": hashlib.md5(repr((r["opsig"], r["bigram_sig"])).encode()).hexdigest()[:16],
-            "extra": {"events": r["events"], "loop_iterations": r["iterations"], "handles": r["handles"],
+            "extra": {"sweep_placements": 1 if case.get("sweep") else 0, "events": r["events"], "loop_iterations": r["iterations"], "handles": r["handles"],
                       "quiescent_points": r["quiescences"], "user_code_points": r["ucp"], "instant_checks": w.n_instant},
         }
         if r["viol"]:
